@@ -1058,6 +1058,18 @@ func genHist13(r *rng) *Hist13 {
 			h.Ops = append(h.Ops, H13Op{K: "split", Eng: e, Prog: &q})
 		}
 	}
+	if r.chance(0.25) {
+		// the one-shot entry points with ONE source text under several typings (the
+		// environments are all map[string]interface{} on the Go side)
+		p := Prog{Src: genericSrcs[r.intn(len(genericSrcs))], Generic: true}
+		if !strings.Contains(p.Src, "\n") {
+			for j := 0; j < 2+r.intn(3); j++ {
+				q := p
+				q.Env = []string{"map", "alt", "alt2", "map2"}[r.intn(4)]
+				h.Ops = append(h.Ops, H13Op{K: []string{"debug", "debug", "eval"}[r.intn(3)], Prog: &q, Carrier: "fresh"})
+			}
+		}
+	}
 	if ne >= 2 && r.chance(0.3) {
 		// one source that calls the per-engine function `tag`, compiled on TWO engines that
 		// both have one, both Callables invoked on ONE raw environment object: what one
@@ -1207,7 +1219,7 @@ func nameClass(name string) string {
 
 func shapeClass(name string) string {
 	switch name {
-	case "map", "struct", "map3", "struct3":
+	case "map", "struct", "map3", "struct3", "mixn":
 		return "std-shape"
 	case "map2", "struct2":
 		return "std2-shape"
@@ -1593,14 +1605,22 @@ func freshProcessCheck(keys []pkey, t1 map[pkey]obs) *Violation {
 	return nil
 }
 
-// builtinRT: a run-time function table like the one every engine builds for itself
-var builtinRT = func() *val.Env {
-	rt := val.NewEnv()
-	for _, f := range fun.BuiltIn() {
-		rt.RegisterFun(f)
+// builtinRT: a run-time function table like the one every engine builds for itself. Built on
+// first use, never at process start: registering the built-ins touches the shared signature
+// objects, and a harness that did so before the first scenario would hide every cold-start
+// effect on them (it did: vp run #13 missed S119 / S160 / S174 for exactly that reason).
+var builtinRT *val.Env
+
+func getBuiltinRT() *val.Env {
+	if builtinRT == nil {
+		rt := val.NewEnv()
+		for _, f := range fun.BuiltIn() {
+			rt.RegisterFun(f)
+		}
+		builtinRT = rt
 	}
-	return rt
-}()
+	return builtinRT
+}
 
 // splitRun: Parse (or the kept tree) + CompileExpr + one evaluation of the compiled closure on an
 // environment of the compile-time typing. Engines with user functions are compiled only (their
@@ -1647,7 +1667,7 @@ func splitRun(o *obs, e *yae.Expr, spec EngineSpec, keep func(func() ast.Expr) a
 				o.Class = "rerr"
 			}
 		}()
-		v := cl(ve.Inherit(builtinRT))
+		v := cl(ve.Inherit(getBuiltinRT()))
 		valObs(o, v, nil)
 		o.held = nil
 	}()
